@@ -71,3 +71,34 @@ R.contract(
 # Access agreement follows by congruence: the contracts mention the given name only through the element it denotes
 # (fmt_opt / fmt_arg_by_*), and a well-formed format maps the long and the short name of an option, and the position and
 # the name of an argument, to the same element (ArgsFormat.get_option / get_argument contracts).
+
+# ---- Args.options(): a snapshot -- the caller gets a NEW dict; the parse result itself is not touched ---------------
+R.contract(M_F + ":ArgsFormat.get_options", params={"include_base": "bool"}, returns="odict[str,ref Option]",
+           ensures=["fresh(result)"], modifies=[], assumed=True,
+           note="the options of the (finished) format as a new ordered dict (C06 view)").defaults = {"include_base": True}
+R.local_kinds = getattr(R, "local_kinds", {})
+OPTIONS = A + "options"
+R.contract(
+    OPTIONS, params={"include_defaults": "bool"}, returns="dict[str,%s]" % VAL,
+    ensures=[
+        "fresh(result)",
+        # everything that was set is reported with its value ...
+        "all(k in result and result[k] == self._options[k] for k in self._options)",
+        # ... and without defaults nothing else is
+        "implies(not include_defaults, all(k in self._options for k in result))",
+        # asking does not change the answer to `is_option_set` / `options(False)`: the stored map is untouched
+        "same_except(self._options)",
+    ],
+    modifies=[],
+)
+R.contracts[OPTIONS].defaults = {"include_defaults": True}
+R.loop(
+    OPTIONS, 0,
+    invariants=[
+        "fresh(options) and options is not self._options",
+        "all(k in options and options[k] == self._options[k] for k in self._options)",
+    ],
+    modifies=["items(options)"],
+    var_kinds={"default": "none|bool|int|real|str|list[str]", "name": "str"},
+    fingerprint="option in self._fmt.get_options",
+)
